@@ -395,6 +395,25 @@ theorem init_establishes_inv (nth : Nat → List IdItem → List IdItem) (hn : N
     (bucket n : Nat) : TreeInv (init nth d bucket n).nodes.toArray bucket n d :=
   init_treeInv hn d bucket n
 
+/--
+**`Initialize` writes only what `Load` accepts.**  If no distance is negative (`bucket ≤ maxbucket` is tested by
+`Initialize` itself), the tree built by `init` is `WellFormed`: at most one node per point, every node passes
+`Node::Check` *with its own position as the bound on the child pointers* (children are stored before their parents;
+vantage and leaf indices `< n`; `0 ≤ lower[0] ≤ upper[0] ≤ lower[1] ≤ upper[1]` — the middle inequality is the partition
+property of `nth_element`; bucket nodes hold at least one index followed by −1 only), and no node is named twice as a child.
+Hence `save_load_roundtrip(_binary)` applies to every tree `Initialize` builds: `Load(Save(init …)) = init …`.
+-/
+theorem init_wellformed (nth : Nat → List IdItem → List IdItem) (hn : NthSpec nth) (d : Nat → Nat → Int)
+    (hd : ∀ i j, 0 ≤ d i j) (bucket n : Nat) (maxbucket : Int) (hb : (bucket : Int) ≤ maxbucket) :
+    WellFormed maxbucket (init nth d bucket n) :=
+  init_wf hn d hd bucket n maxbucket hb
+
+/-- `Load ∘ Save ∘ Initialize = Initialize` on the text layout -/
+theorem init_save_load (nth : Nat → List IdItem → List IdItem) (hn : NthSpec nth) (d : Nat → Nat → Int)
+    (hd : ∀ i j, 0 ≤ d i j) (bucket n : Nat) (realspec maxbucket : Int) (hb : (bucket : Int) ≤ maxbucket) (extra : List Int) :
+    load realspec maxbucket (save realspec (init nth d bucket n) ++ extra) = .ok (init nth d bucket n) :=
+  save_load_roundtrip realspec maxbucket _ extra (init_wellformed nth hn d hd bucket n maxbucket hb)
+
 /-- the instance the driver executes -/
 example (d : Nat → Nat → Int) (bucket n : Nat) : TreeInv (init nthSort d bucket n).nodes.toArray bucket n d :=
   init_establishes_inv nthSort nth_element_sort_spec d bucket n
